@@ -67,6 +67,11 @@ type Corpus struct {
 
 var corpus Corpus
 
+// bigWorlds: the thorough tier also draws larger worlds (more objects and
+// operations per history, more tasks). Set from the tier by the worker and, for
+// re-generating a world from its seed, by the coordinator.
+var bigWorlds bool
+
 // corpusProjects are whole projects (root + types + rules) written by hand for this
 // purpose (corpus/projects.jsonl): combinations of language features that are
 // accepted far enough to reach the code behind them, which random composition of
@@ -1404,6 +1409,11 @@ func genWorldC10(seed uint64, faults bool) *World {
 		w.Cfg.PoolFreshPct, w.Cfg.PoolAnyPct, w.Cfg.PoolDropPct = 0, 0, 0
 	}
 	nobj := 2 + r.n(5)
+	maxOps := 40
+	if bigWorlds && r.pct(30) {
+		nobj = 6 + r.n(7)
+		maxOps = 110
+	}
 	shareTypes := r.pct(35)
 	inheritFamily := r.pct(12)
 	useBuf := r.pct(30) // the caller keeps some texts in reusable []byte buffers
@@ -1506,7 +1516,7 @@ func genWorldC10(seed uint64, faults bool) *World {
 				live = append(live, i)
 			}
 		}
-		if len(live) == 0 || len(ops) >= 40 {
+		if len(live) == 0 || len(ops) >= maxOps {
 			break
 		}
 		i := live[r.n(len(live))]
@@ -1539,6 +1549,9 @@ func genWorldC11(seed uint64, tornOthers bool) *World {
 		r.focus = r.pick(allKinds) // swarm: tasks mostly working on one kind of input
 	}
 	ntasks := 2 + r.n(3)
+	if bigWorlds && r.pct(25) {
+		ntasks = 4 + r.n(4)
+	}
 	w.Tasks = make([][]Op, ntasks)
 	shared := -1
 	if r.pct(45) {
